@@ -15,6 +15,8 @@ use std::{
 
 use curve25519_dalek::scalar::Scalar;
 use digest::Digest;
+#[allow(unused_imports)]
+use merlin::Transcript;
 use rand_core::RngCore;
 use serde_json::json;
 use tari_bulletproofs_plus::{
@@ -75,6 +77,110 @@ pub fn run(ctx: &Ctx, rep: &mut Report) {
     if all || ctx.leg == "race" {
         race(ctx, rep);
     }
+    if all || ctx.leg == "repeat" {
+        repeat(ctx, rep);
+    }
+}
+
+/// Repeating one call - sequentially and from several threads at once - gives bit-identical results, also for batches
+/// longer than the internal chunk size (where an implementation may be tempted to work on chunks in parallel)
+fn repeat(ctx: &Ctx, rep: &mut Report) {
+    let sizes: &[usize] = if ctx.thorough() { &[2, 5, 256, 257, 300, 511, 512, 513, 600, 768, 1024] } else { &[3, 257, 300, 512, 513] };
+    let tsan = ctx.flag("profile=tsan");
+    let mut id = 12000usize;
+    for (si, &size) in sizes.iter().enumerate() {
+        for pat in 0..(if ctx.thorough() { 4 } else { 2 }) {
+            id += 1;
+            if !ctx.mine(id) || (tsan && size > 300) {
+                continue;
+            }
+            let mut rng = ctx.rng("c18-repeat", id as u64);
+            let n = [2usize, 4][(si + pat) % 2];
+            let ext = 1 + (si + pat) % 6;
+            clear_params_cache();
+            let mut pool: Vec<(Case, Proof)> = vec![];
+            for i in 0..8 {
+                let m = [1usize, 1, 2, 1, 4, 1, 2, 1][i];
+                let case = Case::random(Cfg::new(n, m, m << (i % 2), ext), VALUE_CLASSES[i % 6], PROMISE_CLASSES[i % 5], i % 3 != 1, &mut rng);
+                let mut prng = FaultRng::new(RngKind::Healthy(rng.next_u64()));
+                if let Ok(p) = case.prove(&mut prng) {
+                    pool.push((case, p));
+                }
+            }
+            if pool.len() < 4 {
+                continue;
+            }
+            // unequal work per chunk: the first chunk holds the expensive members
+            let order: Vec<usize> = (0..size).map(|i| if pat % 2 == 0 && i < 256 { 4 % pool.len() } else { (i * 5 + pat) % pool.len() }).collect();
+            let ts: Vec<merlin::Transcript> = order.iter().map(|i| pool[*i].0.transcript()).collect();
+            let sts: Vec<Stmt> = order.iter().map(|i| pool[*i].0.statement()).collect();
+            let proofs: Vec<Proof> = order.iter().map(|i| pool[*i].1.clone()).collect();
+            let digest = |r: &Result<Vec<Option<tari_bulletproofs_plus::extended_mask::ExtendedMask>>, tari_bulletproofs_plus::errors::ProofError>| -> String {
+                let mut h = sha3::Sha3_256::new();
+                match r {
+                    Ok(v) => {
+                        for m in v {
+                            match mask_vec(m) {
+                                Some(x) => {
+                                    h.update(b"S");
+                                    for s in x {
+                                        h.update(s.as_bytes());
+                                    }
+                                },
+                                None => h.update(b"N"),
+                            }
+                        }
+                    },
+                    Err(e) => h.update(e.to_string().as_bytes()),
+                }
+                hex(&h.finalize())
+            };
+            let action = [VerifyAction::RecoverAndVerify, VerifyAction::RecoverOnly][pat % 2];
+            let first = no_panic(|| verify_many(&ts, &sts, &proofs, action));
+            let replay = json!({"tier": if ctx.thorough() {"thorough"} else {"quick"}, "seed": ctx.seed, "leg": "repeat", "case": id, "descr": {"batch": size, "bits": n, "ext": ext}});
+            let first = match first {
+                Ok(r) => r,
+                Err(p) => {
+                    rep.violation("C18 repeat-panic", &format!("verify_batch panicked on a valid batch of {size}: {p}"), replay);
+                    continue;
+                },
+            };
+            let d0 = digest(&first);
+            rep.eval(&("repeat", size, pat));
+            rep.count("repeated_batches", 1);
+            // the expectation itself: slot i holds member i's mask
+            if let Ok(v) = &first {
+                let ok = v.len() == size && order.iter().zip(v.iter()).all(|(i, g)| mask_vec(g) == if pool[*i].0.seed.is_some() { Some(pool[*i].0.blindings[0].clone()) } else { None });
+                if !ok {
+                    rep.violation(&format!("C18 repeat-wrong-result size{}256", if size > 256 { ">" } else { "<=" }), &format!("verify_batch on a valid batch of {size}: results are not aligned with the members"), replay.clone());
+                }
+            } else {
+                rep.violation(&format!("C18 repeat-rejected size{}256", if size > 256 { ">" } else { "<=" }), &format!("a valid batch of {size} was rejected"), replay.clone());
+            }
+            let reps = if tsan { 2 } else { 5 };
+            let mut differing = 0;
+            for _ in 0..reps {
+                rep.count("repetitions_compared", 1);
+                if digest(&verify_many(&ts, &sts, &proofs, action)) != d0 {
+                    differing += 1;
+                }
+            }
+            let conc: Vec<String> = std::thread::scope(|s| {
+                let hs: Vec<_> = (0..4).map(|_| s.spawn(|| digest(&verify_many(&ts, &sts, &proofs, action)))).collect();
+                hs.into_iter().map(|h| h.join().unwrap_or_default()).collect()
+            });
+            for d in conc {
+                rep.count("repetitions_compared", 1);
+                if d != d0 {
+                    differing += 1;
+                }
+            }
+            if differing > 0 {
+                rep.violation(&format!("C18 repeat-differs size{}256", if size > 256 { ">" } else { "<=" }), &format!("{differing} of {} repetitions of the same verify_batch call on a batch of {size} returned a different result", reps + 4), replay.clone());
+            }
+        }
+    }
+    rep.sample("repeat", json!({"sizes": sizes}));
 }
 
 fn virgin(ctx: &Ctx, leg: &str, pid: usize) -> Option<String> {
